@@ -1,5 +1,7 @@
 import WfModel.Context
 import WfProofs.ContextCollect
+import WfProofs.CollectConc
+import WfModel.GenCollectShape
 /-!
 # C09 — `collect_events` returns each full set once without losing events
 
@@ -438,3 +440,290 @@ example :
         [.addCollected 0 { ty := 7, kind := .plain, uid := 3 }, .result none] C09.spanState 1000).1.workers 3).inProg.map
       (fun x => (x.wid, x.snapEvents.get 0)) =
     [(1, [{ ty := 5, kind := .plain, uid := 5 }, { ty := 6, kind := .plain, uid := 6 }])] := by decide
+
+/-! ## any snapshot, any number of invocations in flight, every schedule
+
+Under concurrency the live buffer (hence a snapshot) need not satisfy `BufOK`
+(`C09_refuted_conc_buffer_invariant`), so the clauses that survive are stated without it. -/
+
+/-- **a list is returned only when one event of every expected type (with multiplicity) has been received** —
+for ANY snapshot, also one that holds too many events of a type: the list is ordered as `expected`, contains the
+incoming event, consists of snapshot events plus the incoming event, and snapshot + event hold every expected
+type at least as often as expected (exactly as often for the incoming event's type) -/
+theorem C09_complete_only_received (expected : List Nat) (buf : Nat) (collected : List Ev) (ev : Ev) (evs : List Ev)
+    (h : collectEvents expected buf collected ev = .complete evs) :
+    evs.map (·.ty) = expected ∧ ev ∈ evs ∧ (∀ x ∈ evs, x ∈ collected ++ [ev]) ∧
+      (∀ t, expected.count t ≤ ((collected ++ [ev]).map (·.ty)).count t) ∧
+      expected.count ev.ty = ((collected ++ [ev]).map (·.ty)).count ev.ty := by
+  obtain ⟨h1, h2, h3, h4⟩ := c09_complete_facts expected buf collected ev evs h
+  refine ⟨C09_complete_ordered expected buf collected ev evs h, h1, ?_, ?_, ?_⟩
+  · intro x hx
+    rcases h2 x hx with hx | hx
+    · exact List.mem_append_left _ hx
+    · subst hx; simp
+  · intro t
+    rw [count_snoc]
+    by_cases hty : ev.ty = t
+    · subst hty; rw [if_pos rfl]; omega
+    · rw [if_neg hty]; have := h4 t (fun h => hty h.symm); omega
+  · rw [count_snoc, if_pos rfl]; exact h3
+
+/-- non-vacuity: a snapshot with a surplus `B` (3 > 2) still completes; the surplus event is not in the list -/
+example : collectEvents [5, 5, 6, 6] 0
+    [{ ty := 6, kind := .plain, uid := 3 }, { ty := 6, kind := .plain, uid := 4 }, { ty := 6, kind := .plain, uid := 2 },
+     { ty := 5, kind := .plain, uid := 7 }] { ty := 5, kind := .plain, uid := 8 } =
+    .complete [{ ty := 5, kind := .plain, uid := 7 }, { ty := 5, kind := .plain, uid := 8 },
+               { ty := 6, kind := .plain, uid := 3 }, { ty := 6, kind := .plain, uid := 4 }] := by decide
+
+/-- **refinement**: the concurrent histories restricted to single-flight schedules (`start e; finish e; …`) are
+exactly the `collectRound` histories of `C09_single_flight_partition` -/
+theorem C09_conc_single_flight_refines (expected : List Nat) (evs : List Ev) :
+    let c := c09ConcRun expected (c09SingleFlight evs)
+    let h := evs.foldl (collectRound expected) {}
+    c.flights = [] ∧ c.buffer = h.buffer ∧ c.returned.map (·.2) = h.returned ∧ c.dropped = h.dropped := by
+  have := c09_single_flight_run expected evs {} rfl
+  obtain ⟨h1, h2⟩ := this
+  have hb := congrArg CollectHist.buffer h2
+  have hr := congrArg CollectHist.returned h2
+  have hd := congrArg CollectHist.dropped h2
+  exact ⟨h1, hb, hr, hd⟩
+
+/-- **every schedule, any number of workers** (no event admitted twice): every returned list is ordered as
+`expected`, contains the event its invocation was called with, and consists of admitted events only -/
+theorem C09_conc_lists_ordered_received (expected : List Nat) (acts : List C09Act)
+    (hnd : (acts.filterMap C09Act.started).Nodup) :
+    ∀ p ∈ (c09ConcRun expected acts).returned,
+      p.2.map (·.ty) = expected ∧ p.1 ∈ p.2 ∧ ∀ x ∈ p.2, x ∈ acts.filterMap C09Act.started := by
+  have hi := c09_cinv_run expected acts [] {} (by simpa using hnd) (c09_cinv_init expected)
+  simp only [List.nil_append] at hi
+  intro p hp
+  exact ⟨hi.retOrdered p hp, hi.trigIn p hp, hi.subRet p hp⟩
+
+/-- **every schedule**: the event an invocation was called with when its `collect_events` returned a list is in
+that list and in NO other returned list, was never buffered and is not surplus; so returned lists are pairwise
+different, each owns one event, and there are at most as many lists as admitted events (even where buffered
+events are handed out twice, `C09_refuted_double_count`, a completing event never is) -/
+theorem C09_conc_trigger_in_one_list (expected : List Nat) (acts : List C09Act)
+    (hnd : (acts.filterMap C09Act.started).Nodup) :
+    let c := c09ConcRun expected acts
+    (c.returned.map (·.1)).Nodup ∧
+    (∀ p ∈ c.returned, ∀ q ∈ c.returned, p.1 ∈ q.2 → q.1 = p.1) ∧
+    (∀ p ∈ c.returned, p.1 ∉ c.buffer ∧ p.1 ∉ c.dropped ∧ ∀ g ∈ c.flights, p.1 ∉ g.snap ∧ g.ev ≠ p.1) ∧
+    c.returned.length ≤ (acts.filterMap C09Act.started).length := by
+  have hi := c09_cinv_run expected acts [] {} (by simpa using hnd) (c09_cinv_init expected)
+  simp only [List.nil_append] at hi
+  refine ⟨hi.trigNodup, hi.trigOnly, ?_, ?_⟩
+  · intro p hp
+    refine ⟨hi.trigBuf p hp, hi.trigDrop p hp, fun g hg => ⟨hi.trigSnap p hp g hg, fun he => ?_⟩⟩
+    exact hi.pendRet g hg p hp (he ▸ hi.trigIn p hp)
+  · have hsub : ∀ x ∈ (c09ConcRun expected acts).returned.map (·.1), x ∈ acts.filterMap C09Act.started := by
+      intro x hx
+      obtain ⟨p, hp, rfl⟩ := List.mem_map.mp hx
+      exact hi.subRet p hp _ (hi.trigIn p hp)
+    have := List.Nodup.length_le_of_subset hi.trigNodup hsub
+    rw [List.length_map] at this
+    exact this
+
+/-- **every schedule**: nothing is counted twice in the live state — the buffer and the surplus list hold no
+event twice and share none; an event whose invocation is still in flight (also one being re-run) is not in
+the buffer, not surplus, in no snapshot and in no returned list; invocations in flight have different events -/
+theorem C09_conc_no_double_buffering (expected : List Nat) (acts : List C09Act)
+    (hnd : (acts.filterMap C09Act.started).Nodup) :
+    let c := c09ConcRun expected acts
+    c.buffer.Nodup ∧ c.dropped.Nodup ∧ (∀ e ∈ c.buffer, e ∉ c.dropped) ∧ (c.flights.map (·.ev)).Nodup ∧
+    (∀ f ∈ c.flights, f.ev ∉ c.buffer ∧ f.ev ∉ c.dropped ∧ (∀ g ∈ c.flights, f.ev ∉ g.snap) ∧
+      ∀ p ∈ c.returned, f.ev ∉ p.2) ∧
+    (∀ e, e ∈ c.buffer ∨ e ∈ c.dropped ∨ (∃ f ∈ c.flights, e = f.ev ∨ e ∈ f.snap) →
+      e ∈ acts.filterMap C09Act.started) := by
+  have hi := c09_cinv_run expected acts [] {} (by simpa using hnd) (c09_cinv_init expected)
+  simp only [List.nil_append] at hi
+  refine ⟨hi.bufNodup, hi.dropNodup, hi.bufDrop, hi.pendNodup, ?_, ?_⟩
+  · intro f hf
+    exact ⟨hi.pendBuf f hf, hi.pendDrop f hf, hi.pendSnap f hf, hi.pendRet f hf⟩
+  · rintro e (he | he | ⟨f, hf, he | he⟩)
+    · exact hi.subBuf e he
+    · exact hi.subDrop e he
+    · exact he ▸ hi.subPend f hf
+    · exact hi.subSnap f hf e he
+
+/-- a schedule for two workers, expected `[A,A,B,B]` (A = 5, B = 6): `B2` is admitted against the snapshot
+`[A1,B1]`; while it runs the round `[A1,A2,B1,B5]` completes and the buffer refills to `[B3,B4]` (same length as
+the snapshot, so the reducer takes `B2`'s `AddCollectedEvent` for fresh) -/
+def C09.concWitness : List C09Act :=
+  let A (u : Nat) : Ev := { ty := 5, kind := .plain, uid := u }
+  let B (u : Nat) : Ev := { ty := 6, kind := .plain, uid := u }
+  [.start (A 1), .finish (A 1), .start (B 1), .finish (B 1),
+   .start (B 2),                                  -- snapshot [A1,B1]
+   .start (A 2), .finish (A 2), .start (B 5), .finish (B 5),   -- [A1,A2,B1,B5] returned, buffer []
+   .start (B 3), .finish (B 3), .start (B 4), .finish (B 4),   -- buffer [B3,B4]
+   .finish (B 2)]                                 -- appended: [B3,B4,B2]
+
+example : (C09.concWitness.filterMap C09Act.started).Nodup ∧
+    (c09ConcRun [5, 5, 6, 6] C09.concWitness).buffer =
+      [{ ty := 6, kind := .plain, uid := 3 }, { ty := 6, kind := .plain, uid := 4 }, { ty := 6, kind := .plain, uid := 2 }] ∧
+    (c09ConcRun [5, 5, 6, 6] C09.concWitness).returned.length = 1 := by decide
+
+/-- full statement: the live buffer never holds more events of a type than expected, on every schedule -/
+def C09_statement_conc_buffer_invariant : Prop :=
+  ∀ (expected : List Nat) (acts : List C09Act), (acts.filterMap C09Act.started).Nodup →
+    BufOK expected (c09ConcRun expected acts).buffer
+
+/-- **refuted** with two invocations in flight: after `C09.concWitness` the buffer holds three `B`s for two
+expected (same root cause as F08: staleness is judged by length only) -/
+theorem C09_refuted_conc_buffer_invariant : ¬ C09_statement_conc_buffer_invariant := by
+  intro h
+  have := h [5, 5, 6, 6] C09.concWitness (by decide) 6
+  revert this
+  decide
+
+/-- full statement: no admitted event is ever lost — it is in flight, buffered, surplus, or in a returned list -/
+def C09_statement_conc_none_lost : Prop :=
+  ∀ (expected : List Nat) (acts : List C09Act), (acts.filterMap C09Act.started).Nodup →
+    let c := c09ConcRun expected acts
+    ∀ e ∈ acts.filterMap C09Act.started,
+      e ∈ c.flights.map (·.ev) ∨ e ∈ c.buffer ∨ e ∈ c.dropped ∨ ∃ p ∈ c.returned, e ∈ p.2
+
+/-- **refuted**: continue the witness with `A3`, `A4` one at a time — `[A3,A4,B3,B4]` is returned, the buffer is
+popped and `B2` is gone -/
+theorem C09_refuted_conc_none_lost : ¬ C09_statement_conc_none_lost := by
+  intro h
+  have := h [5, 5, 6, 6]
+    (C09.concWitness ++ [.start { ty := 5, kind := .plain, uid := 13 }, .finish { ty := 5, kind := .plain, uid := 13 },
+      .start { ty := 5, kind := .plain, uid := 14 }, .finish { ty := 5, kind := .plain, uid := 14 }])
+    (by decide) { ty := 6, kind := .plain, uid := 2 } (by decide)
+  revert this
+  decide
+
+/-- non-vacuity of the every-schedule theorems: a schedule with three invocations in flight, a re-run and a
+completed round (the hypotheses hold, the history is not trivial) -/
+example :
+    let A (u : Nat) : Ev := { ty := 5, kind := .plain, uid := u }
+    let B (u : Nat) : Ev := { ty := 6, kind := .plain, uid := u }
+    let acts : List C09Act := [.start (A 1), .start (A 2), .start (B 1), .finish (A 1), .finish (B 1), .finish (B 1),
+      .finish (A 2)]
+    (acts.filterMap C09Act.started).Nodup ∧
+    c09ConcRun [5, 6] acts =
+      { buffer := [A 2], flights := [], returned := [(B 1, [A 1, B 1])], dropped := [] } := by decide
+
+/-! ## the concurrent histories are the reducer's: admission and result tick -/
+
+theorem c09_collect_pending_is_add (expected : List Nat) (buf : Nat) (collected : List Ev) (ev : Ev) (r : Res)
+    (h : collectEvents expected buf collected ev = .pending (some r)) : r = .addCollected buf ev := by
+  unfold collectEvents at h
+  split at h
+  · cases h
+  · split at h
+    · split at h
+      · injection h with h; injection h with h; exact h.symm
+      · cases h
+    · cases h
+
+/-- **the history step is the reducer's**: finishing an invocation in `C09Conc` changes the buffer exactly as
+`_process_step_result_tick` changes the step's live buffer when it is given what `collect_events` appended for that
+invocation's snapshot, followed by the step's `StepWorkerResult` -/
+theorem C09_conc_finish_refines_reducer (cfg : Cfg) (pol : Policy) (step worker : Nat) (expected : List Nat)
+    (st : State) (now : Int) (exec : InProg) (others : List C09Flight) (hs : cfg.hasStep step = true)
+    (hf : (st.workers step).inProg.find? (fun w => w.wid == worker) = some exec) :
+    let snap := exec.snapEvents.get 0
+    let live := (st.workers step).collected.get 0
+    let res := (collectEvents expected 0 snap exec.ev).results 0 ++ [.result none]
+    ((processStepResult cfg pol step worker exec.ev res st now).1.workers step).collected.get 0 =
+      (c09Finish expected { buffer := live, flights := others } { ev := exec.ev, snap := snap }).buffer := by
+  intro snap live res
+  cases hc : collectEvents expected 0 snap exec.ev with
+  | empty =>
+    simp only [res, hc, CollectOut.results, List.nil_append, c09Finish, processStepResult, hs, Bool.not_true,
+      Bool.false_eq_true, if_false, hf, List.foldl_cons, List.foldl_nil, applyRes, settle, State.set, if_true,
+      List.any_nil, drain_collected]
+    rfl
+  | complete evs =>
+    simp only [res, hc, CollectOut.results, c09Finish, processStepResult, hs, Bool.not_true,
+      Bool.false_eq_true, if_false, hf, List.cons_append, List.nil_append, List.foldl_cons, List.foldl_nil, applyRes,
+      List.any_cons, List.any_nil, isResult, Bool.or_true, Bool.or_false, if_true, settle, State.set]
+    rw [drain_collected]; exact Collected.get_pop _ _
+  | pending r =>
+    cases r with
+    | none =>
+      simp only [res, hc, CollectOut.results, List.nil_append, c09Finish, processStepResult, hs, Bool.not_true,
+        Bool.false_eq_true, if_false, hf, List.foldl_cons, List.foldl_nil, applyRes, settle, State.set, if_true,
+        List.any_nil, drain_collected]
+      rfl
+    | some r =>
+      have hr := c09_collect_pending_is_add expected 0 snap exec.ev r hc
+      subst hr
+      by_cases hstale : live.length > snap.length
+      · have h1 := (C09_stale_rerun_tick cfg pol step worker exec.ev exec.ev 0 st now exec hs hf hstale).1 0
+        simp only [res, hc, CollectOut.results, List.cons_append, List.nil_append, c09Finish, hstale, if_true]
+        exact h1
+      · simp only [res, hc, CollectOut.results, List.cons_append, List.nil_append, c09Finish, hstale, if_false,
+          processStepResult, hs, Bool.not_true, Bool.false_eq_true, hf, List.foldl_cons, List.foldl_nil, applyRes,
+          Collected.get_touch, settle, State.set, if_true, List.any_nil]
+        have hst : ¬ ((st.workers step).collected.get 0).length > (exec.snapEvents.get 0).length := hstale
+        simp only [hst, if_false, State.set, if_true, List.any_nil, Bool.false_eq_true]
+        simp [State.set, drain_collected, Collected.get_append, Collected.get_touch, live]
+
+/-- non-vacuity: the stale case of the refinement on the state of `C09.spanState` (live `[A2,B2]`, snapshot `[A1]`) -/
+example : (c09Finish [5, 6, 7] { buffer := (C09.spanState.workers 3).collected.get 0, flights := [] }
+    { ev := C09.spanExec.ev, snap := C09.spanExec.snapEvents.get 0 }).buffer =
+    [{ ty := 5, kind := .plain, uid := 5 }, { ty := 6, kind := .plain, uid := 6 }] := by decide
+
+/-- **the history's `start` is the reducer's admission**: whenever `_add_or_enqueue_event` puts an invocation in
+flight (directly or when the queue drains), its snapshot is the step's live buffers at that moment, it carries the
+admitted event, and the live buffers are not changed; a queued event gets no snapshot yet -/
+theorem C09_conc_start_refines_admission (att : Attempt) (step : Nat) (ss : StepState) (nw : Nat) (now : Int) :
+    let r := addOrEnqueue att step ss nw now
+    r.1.collected = ss.collected ∧
+    ∀ x ∈ r.1.inProg, x ∈ ss.inProg ∨ (x.ev = att.ev ∧ x.snapEvents = ss.collected) := by
+  unfold addOrEnqueue
+  split
+  · split
+    · refine ⟨rfl, fun x hx => ?_⟩
+      rcases List.mem_append.mp hx with hx | hx
+      · exact Or.inl hx
+      · simp only [List.mem_singleton] at hx; subst hx; exact Or.inr ⟨rfl, rfl⟩
+    · exact ⟨rfl, fun x hx => Or.inl hx⟩
+  · exact ⟨rfl, fun x hx => Or.inl hx⟩
+
+example : ((addOrEnqueue { ev := { ty := 6, kind := .plain, uid := 2 } } 3
+    { collected := [(0, [{ ty := 5, kind := .plain, uid := 1 }])] } 2 1000).1.inProg.map (fun x => (x.wid, x.snapEvents.get 0))) =
+    [(0, [{ ty := 5, kind := .plain, uid := 1 }])] := by decide
+
+/-! ## the decisions in the source -/
+
+/-- every expression `collect_events`, the collect branches of `_process_step_result_tick` and the admission take a
+decision on, re-read from the current sources (`harness/gen/collect_shape.py`), is the one the model implements:
+`collectEvents` (empty guard, `Counter(expected) - Counter(types)`, `!= Counter([type(ev)])`, `type(ev) in remaining`,
+`pop(0)` per expected type over `collected + [ev]`), `applyRes` (skip once a re-run is scheduled, `len(live) > len(sent)`,
+snapshot := copy of ALL live buffers, re-run on `this_execution.worker_id`, append otherwise; pop only if the step
+completed) and `addOrEnqueue` (snapshot = copy of the live buffers) -/
+theorem C09_collect_source_shape :
+    GenCollectShape.emptyGuard = "not expected" ∧ GenCollectShape.emptyReturns = "return []" ∧
+    GenCollectShape.bufferDefault = "buffer_id or 'default'" ∧
+    GenCollectShape.snapshotBuffer = "step_ctx.state.collected_events.get(buffer_id, [])" ∧
+    GenCollectShape.remaining = "Counter(expected) - Counter([type(e) for e in collected_events])" ∧
+    GenCollectShape.notCompleteTest = "remaining_event_types != Counter([type(ev)])" ∧
+    GenCollectShape.recordTest = "type(ev) in remaining_event_types" ∧
+    GenCollectShape.recorded = "AddCollectedEvent(event_id=buffer_id, event=ev)" ∧
+    GenCollectShape.notCompleteReturns = "return None" ∧ GenCollectShape.notCompleteOrelse = "0" ∧
+    GenCollectShape.pool = "collected_events + [ev]" ∧ GenCollectShape.poolGrouping = "by_type[type(e)].append(e)" ∧
+    GenCollectShape.order = "expected" ∧ GenCollectShape.pick = "total.append(by_type[e_type].pop(0))" ∧
+    GenCollectShape.completed = "DeleteCollectedEvent(event_id=buffer_id)" ∧
+    GenCollectShape.completedReturns = "return total" ∧
+    GenCollectShape.didComplete = "bool([x for x in tick.result if isinstance(x, StepWorkerResult)])" ∧
+    GenCollectShape.addSkipTest = "not step_no_longer_in_progress" ∧ GenCollectShape.addSkipBody = "continue" ∧
+    GenCollectShape.liveBuffer = "state.workers[tick.step_name].collected_events.setdefault(result.event_id, [])" ∧
+    GenCollectShape.sentBuffer = "this_execution.shared_state.collected_events.get(result.event_id, [])" ∧
+    GenCollectShape.staleTest = "len(collected_events) > len(sent_events)" ∧
+    GenCollectShape.staleFlag = "step_no_longer_in_progress = False" ∧
+    GenCollectShape.refreshed =
+      "replace(this_execution.shared_state, collected_events={x: list(y) for x, y in state.workers[tick.step_name].collected_events.items()})" ∧
+    GenCollectShape.refreshedStored = "this_execution.shared_state = updated_state" ∧
+    GenCollectShape.rerunCommand =
+      "CommandRunWorker(step_name=tick.step_name, event=result.event, id=this_execution.worker_id)" ∧
+    GenCollectShape.freshBody = "collected_events.append(result.event)" ∧
+    GenCollectShape.deleteGuard = "did_complete_step" ∧
+    GenCollectShape.deleteBody = "state.workers[tick.step_name].collected_events.pop(result.event_id, None)" ∧
+    GenCollectShape.deleteOrelse = "0" ∧
+    GenCollectShape.admitCopy = "state._deepcopy()" ∧ GenCollectShape.admitSnapshot = "state_copy.collected_events" :=
+  ⟨rfl, rfl, rfl, rfl, rfl, rfl, rfl, rfl, rfl, rfl, rfl, rfl, rfl, rfl, rfl, rfl, rfl, rfl, rfl, rfl, rfl, rfl, rfl, rfl,
+   rfl, rfl, rfl, rfl, rfl, rfl, rfl, rfl⟩
